@@ -121,4 +121,16 @@ theorem pubKey_regenerated (d : Nat) :
 theorem sign_front (d : Nat) (h : Bytes) : Secp.Gen.Drivers.signGen d h = Secp.Gen.Drivers.signRFC6979 d h :=
   Secp.Proofs.DriversFront.sign_front d h
 
+
+/-- `PrivateKey.Sign` (crypto.Signer) regenerated: signs the digest AS GIVEN with `signRFC6979`; compact export (offset 0)
+    exactly when the options are `*SignOptions{Format: SignFormatCompact}`, DER otherwise; the entropy argument is
+    never used (it has no counterpart in the translation: any use would leave the subset) -/
+theorem signer_front (d : Nat) (digest : Bytes) (opts : Option (Nat × Nat)) :
+    Secp.Gen.Drivers.signerSign d digest opts =
+      (match Secp.Gen.Drivers.signRFC6979 d digest with
+       | .ok (r, s, v) =>
+         DR.ok (if (opts.getD (0, 0)).1 == 1 then exportCompactM r s v true 0 else serializeDER r s)
+       | .err e => DR.err e | .panic => DR.panic | .fuel => DR.fuel | .undef => DR.undef) :=
+  Secp.Proofs.DriversFront.signer_front d digest opts
+
 end Secp.Props.C01
